@@ -8,6 +8,7 @@ building blocks, any nesting depth, any number of sequence items) — not only d
 -/
 import OsmoVerif.Lemmas.CodecErr
 import OsmoVerif.Lemmas.CodecTyped
+import OsmoVerif.Lemmas.CodecExact
 
 namespace OsmoVerif.Props.C16
 open OsmoVerif OsmoVerif.Codec
@@ -101,6 +102,24 @@ theorem enc_dec_idem (d : EnvDef) (b : List Nat) (v : Vals) (n : Nat) (hw : WF d
   refine ⟨hn, c, h3, h4, ?_⟩
   have : b.drop n = [] := by rw [hn]; exact List.drop_length
   rwa [this, List.append_nil] at h5
+
+/-- for a definition without spare parts (no Spare fields, no spare or padding bits: every octet carries a
+decoded value) the canonical octets ARE the consumed octets: `enc (dec b) = b[:n]`. -/
+theorem enc_dec_exact (d : EnvDef) (b : List Nat) (v : Vals) (n : Nat) (hw : WF d) (hs : noSpareFields d.fs = true)
+    (hb : isBytes b = true) (h : fromBytes d b = .ok (v, n)) : toBytes d v = .ok (b.take n) := by
+  simp only [fromBytes] at h
+  cases he : envFrom d.fs [] b 0 with
+  | error e => simp [he, tailCheck] at h
+  | ok r =>
+    obtain ⟨v', n'⟩ := r
+    simp only [he, tailCheck] at h
+    by_cases hc : d.checkLen = true ∧ b.length ≠ n'
+    · rw [if_pos hc] at h; cases h
+    · rw [if_neg hc] at h
+      simp only [Except.ok.injEq, Prod.mk.injEq] at h
+      obtain ⟨rfl, rfl⟩ := h
+      have := envEX d.fs [] v' b n' [] hw.1 hs (by simp [Vals.keys]) hw.2 hb he
+      simpa [toBytes] using this
 
 /-! ## decoding consumes exactly the octets the definition declares -/
 
@@ -329,6 +348,19 @@ def exampleDef : EnvDef := ⟨true, [
 
 example : WF exampleDef := by decide
 example : RefsOK exampleDef := by decide
+
+/-- a spare-free definition (every bit named, 16 bits in 2 octets, LSB-first, nested envelope and sequence) -/
+def exactDef : EnvDef := ⟨false, [
+  .bits .always 0 true [⟨some "a", 3, none⟩, ⟨some "b", 9, some 300⟩, ⟨some "c", 4, none⟩],
+  .int "n" .always 1 .big false 0 1,
+  .env "e" .always (.ofField "n") true [.int "x" .always 2 .little true (-7) 3, .buf "y" .always .rest],
+  .seq "s" .always (.fixed 4) [.int "t" .always 1 .big false 0 1, .buf "u" .always (.fixed 1)]]⟩
+
+example : WF exactDef ∧ noSpareFields exactDef.fs = true := by decide
+example : fromBytes exactDef [89, 101, 3, 1, 2, 9, 7, 8, 9, 10, 99] =
+    .ok ([("c", .int 5), ("b", .int 300), ("a", .int 5), ("n", .int 3), ("e", .dict [("x", .int 1532), ("y", .bytes [9])]),
+          ("s", .list [.dict [("t", .int 7), ("u", .bytes [8])], .dict [("t", .int 9), ("u", .bytes [10])]])], 10) := by
+  decide
 
 def exampleVal : Vals := [
   ("ver", .int 2), ("flag", .int 0), ("code", .int 1), ("len", .int 2), ("temp", .int (-43)),
